@@ -281,6 +281,45 @@ def incdec_rule(ctx, rule):
             ok = (neg and not direct) if negated else (direct and not neg)
             why = "" if ok else "%s passes %s" % (name, "the amount un-negated" if negated else "something other than the amount")
         rep.ob(rule, "incdec::" + name, ok, why, fn.loc(), how="visit_inc_dec(dest, %samount)" % ("-" if negated else ""))
+    # the helper applies the amount in one step: exactly one Val::inc, in the write closure itself (not under an iterator
+    # combinator or a loop), whose argument is the `amount` parameter, unchanged -- `x + k` is one IEEE addition, not k additions
+    helper = None
+    for f in F.all_fns(tests=False):
+        if f.kind != "closure" and f.path.startswith(EXEC) and f.path.endswith("::visit_inc_dec"):
+            helper = f
+    if helper is None:
+        rep.fail(rule, "anchor::visit_inc_dec", "ExecStmt::visit_inc_dec not found")
+    else:
+        rep.analysed(helper)
+        sites = [(b, bi, t) for b in F.with_closures(helper) for bi, t in b.calls() if callee_def(t) == "exec::val::Val::inc"]
+        ok = len(sites) == 1
+        why = "" if ok else "expected one call of Val::inc under visit_inc_dec, found %d" % len(sites)
+        if ok:
+            b, bi, t = sites[0]
+            cyc = set()
+            for scc in b.sccs():
+                cyc |= set(scc)
+            amt = next((i for i in range(1, helper.argc + 1) if helper.local_name(i) == "amount"), None)
+            if b.kind != "closure" or b.d.get("parent") != helper.path:
+                ok, why = False, "Val::inc is called from %s, not directly from the write closure of visit_inc_dec: the amount is applied piecewise" % b.path
+            elif bi in cyc:
+                ok, why = False, "Val::inc is called in a loop: the amount is applied in several steps (k roundings instead of one)"
+            else:
+                src = set(origins(b, t["args"][1]))
+                ups = {int(p[0]) for d, p in src if d == ("param", 1) and len(p) == 1 and str(p[0]).isdigit()}
+                if len(src) != 1 or len(ups) != 1:
+                    ok, why = False, "the argument of Val::inc is not a captured variable handed on unchanged (%s)" % sorted(map(str, src))
+                else:
+                    # what was captured
+                    cap = None
+                    for pbi, psi, ps in helper.assigns():
+                        a = ps["rv"].get("agg")
+                        if isinstance(a, dict) and a.get("closure") == b.path:
+                            cap = ps["rv"]["ops"][list(ups)[0]]
+                    csrc = {d for d, p in origins(helper, cap)} if cap is not None else set()
+                    if csrc != {("param", amt)}:
+                        ok, why = False, "the value handed to Val::inc is not the `amount` parameter itself (%s)" % sorted(map(str, csrc))
+        rep.ob(rule, "incdec::one-step", ok, why, helper.loc(), how="|val| val.inc(amount), once")
     # inc on the value: Boolean toggles on odd amounts, Number adds the amount
     T = kind_rules.tables(ctx)
     fn = F.fn("exec::val::Val::inc")
@@ -316,7 +355,16 @@ def term_anchor_rule(ctx, rule):
                 got.add(kt.term(o.ret))
             ok = any(callee in g for g in got) and not any(callee.replace("self.0,other.0", "other.0,self.0") in g for g in got)
             rep.ob(rule, "term::compare::%s" % k, ok, "" if ok else "compare(%s, %s) does not order (self, other) with %s: %s" % (k, k, callee, sorted(got)), fn.loc(), how=callee)
+    truthy_terms(ctx, rule)
+
+
+def truthy_terms(ctx, rule):
+    """is_truthy per value kind, at term level (also used by C04: conditions of if/while/until)"""
+    F, rep = ctx.F, ctx.rep
+    T = kind_rules.tables(ctx)
     fn = T.fn("is_truthy")
+    if fn is None:
+        rep.fail(rule, "anchor::is_truthy", "Val::is_truthy not found")
     if fn is not None:
         got = {k: {kt.term(o.ret) for o in T.I.run(fn, [kt.mk(k, "self")])} for k in kt.KINDS}
         want_t = {"Undefined": {"False"}, "Null": {"False"}, "Boolean": {"self.0"}, "Number": {"ne(self.0,0.0)"}, "String": {"True"}, "Array": {"True"}}
